@@ -259,22 +259,29 @@ def check(prop, tier, seed):
     # ---- lemmas over the contracts that are checked by Lean 4 + Mathlib (thorough tier; they do not depend on /repo)
     lean_ev = None
     if entry.get("lean") and tier == "thorough":
-        lf = os.path.join(VERIF, entry["lean"])
-        t0 = time.time()
-        try:
-            lp = subprocess.run(["lean", lf], capture_output=True, text=True, timeout=3000, cwd=_work())
-            out = (lp.stdout or "") + (lp.stderr or "")
-            thms = re.findall(r"'([^']+)' depends on axioms: \[([^\]]*)\]", out)
-            allowed = {"propext", "Classical.choice", "Quot.sound"}
-            bad_ax = [(n_, a_) for n_, a_ in thms if not set(x.strip() for x in a_.split(",") if x.strip()) <= allowed]
-            src = open(lf).read()
-            ok = lp.returncode == 0 and "error" not in out and "sorry" not in out and "sorry" not in src and thms and not bad_ax
-            lean_ev = {"file": entry["lean"], "backend": "lean 4 + Mathlib (kernel-checked)", "theorems": [n_ for n_, _ in thms],
-                       "axioms": sorted(allowed), "accepted": bool(ok), "wall_s": round(time.time() - t0, 1)}
-            if not ok:
-                checker_failures.append("Lean rejected %s: %s" % (entry["lean"], out[-400:]))
-        except Exception as e:
-            checker_failures.append("lean did not run: %r" % (e,))
+        files = entry["lean"] if isinstance(entry["lean"], (list, tuple)) else [entry["lean"]]
+        allowed = {"propext", "Classical.choice", "Quot.sound"}
+        lean_ev = {"files": list(files), "backend": "lean 4 + Mathlib (kernel-checked)", "theorems": [], "axioms": sorted(allowed),
+                   "accepted": True, "wall_s": 0.0}
+        for rel in files:
+            lf = os.path.join(VERIF, rel)
+            t0 = time.time()
+            try:
+                lp = subprocess.run(["lean", lf], capture_output=True, text=True, timeout=3000, cwd=_work())
+                out = (lp.stdout or "") + (lp.stderr or "")
+                thms = re.findall(r"'([^']+)' depends on axioms: \[([^\]]*)\]", out)
+                bad_ax = [(n_, a_) for n_, a_ in thms if not set(x.strip() for x in a_.split(",") if x.strip()) <= allowed]
+                src = open(lf).read()
+                ok = lp.returncode == 0 and not re.search(r"error:", out) and "sorryAx" not in out and not re.search(r"\bsorry\b", src) \
+                    and thms and not bad_ax
+                lean_ev["theorems"] += ["%s:%s" % (os.path.basename(rel), n_) for n_, _ in thms]
+                lean_ev["wall_s"] = round(lean_ev["wall_s"] + time.time() - t0, 1)
+                if not ok:
+                    lean_ev["accepted"] = False
+                    checker_failures.append("Lean rejected %s: %s" % (rel, out[-400:]))
+            except Exception as e:
+                lean_ev["accepted"] = False
+                checker_failures.append("lean did not run on %s: %r" % (rel, e))
 
     # ---- refuted obligations: replay
     for o, r in refuted:
